@@ -10,14 +10,59 @@
    prefix of the reference list / all of it and closed when the driver finished, errors
    propagated to the driver and nothing called after an error, lazy initializer called at most
    once and exactly once if anything reached the sink).
-   Proved so far (hence the names): the initializer clause for LazySink over ANY downstream
-   sink ([C14_lazy_init_once_partial]), and the refutation of the strict protocol for Unzip
-   ([C14_unzip_strict_refuted], finding unzip/poll_close-after-close-completed).  The remaining
-   clauses are checked per run on the implementation's histories only (correspondence +
-   executable property), not yet proved for all inputs. *)
+   Proved: the full statement for map, filter, filter_map ([C14_map], [C14_filter],
+   [C14_filter_map]); the initializer clause for LazySink over ANY downstream sink
+   ([C14_lazy_init_once_partial]); the refutation of the strict protocol for Unzip
+   ([C14_unzip_strict_refuted], finding unzip/poll_close-after-close-completed).  For flat_map,
+   flatten, unzip and the delivery clauses of LazySink the property is checked per run on the
+   implementation's histories only (correspondence + executable property), not yet proved. *)
 From Coq Require Import List NArith Bool.
-From HV Require Import Push.SinkModel Push.PSink.
+From HV Require Import Push.SinkModel Push.PBase Push.PSink Push.PSinkOne.
 Import ListNotations.
+
+(* FULL statement for the forwarding adaptors map.rs / filter.rs / filter_map.rs over a scripted
+   futures::Sink recorder [s0] with ARBITRARY Ready/Pending/Err scripts (any [sds] with an empty
+   log), all items, all fuel.  [sresult fwd FInv items o s'] unfolds, by the driver's outcome o, to
+   [SInv gref phase (slg s')] (PSinkOne.v):
+     - always: the strict futures::Sink protocol [swf] toward the downstream (start_send only
+       directly after poll_ready = Ready(Ok), nothing sent once closing, nothing at all after
+       an error or after close completed);
+     - SFinished: no failure, closed, items offered = items accepted = reference list [gref items];
+     - SFailed: the downstream log contains the failure (error propagated, nothing called after
+       it) and the items offered are the reference of a prefix of the input;
+     - SOutOfFuel: no failure so far, offered = accepted = reference of the consumed prefix;
+     - SPanicked: impossible. *)
+Theorem C14_filter_map : forall A B (g : A -> option B) fuel items (s0 : sds B),
+    slg s0 = [] ->
+    match sdrive (sfilter_map (srec B) g) fuel items s0 [] with
+    | (o, _, s') => sresult (sfilter_map (srec B) g) (FInv g) items o s'
+    end.
+Proof.
+  intros A B g. exact (@fwd_correct A B g (ssend (sfilter_map (srec B) g)) (fun _ _ => eq_refl)).
+Qed.
+Print Assumptions C14_filter_map.
+
+Theorem C14_map : forall A B (f : A -> B) fuel items (s0 : sds B),
+    slg s0 = [] ->
+    match sdrive (smap (srec B) f) fuel items s0 [] with
+    | (o, _, s') => sresult (smap (srec B) f) (FInv (fun a => Some (f a))) items o s'
+    end.
+Proof.
+  intros A B f. exact (@fwd_correct A B (fun a => Some (f a)) (ssend (smap (srec B) f)) (fun _ _ => eq_refl)).
+Qed.
+Print Assumptions C14_map.
+
+Theorem C14_filter : forall A (q : A -> bool) fuel items (s0 : sds A),
+    slg s0 = [] ->
+    match sdrive (sfilter (srec A) q) fuel items s0 [] with
+    | (o, _, s') => sresult (sfilter (srec A) q) (FInv (fun a => if q a then Some a else None)) items o s'
+    end.
+Proof.
+  intros A q.
+  refine (@fwd_correct A A (fun a => if q a then Some a else None) (ssend (sfilter (srec A) q)) _).
+  intros a s. cbn. destruct (q a); reflexivity.
+Qed.
+Print Assumptions C14_filter.
 
 Theorem C14_lazy_init_once_partial : forall A (nx : sink A) fuel items n ok (s0 : SSt nx),
     match sdrive (slazy nx) fuel items (@LUninit A n ok, 0, s0) [] with
